@@ -146,3 +146,100 @@ Proof.
   { rewrite app_nth2 by lia. rewrite Hfl, Nat.sub_diag. reflexivity. }
   reflexivity.
 Qed.
+
+(* ---- the whole emitted unit-property table, read back by a later load -------------------------------------------------------- *)
+From RC Require Import proofs.Save_refs.
+
+Lemma uprp_decode_cons s r i0 :
+  uprp_decode_slots (s :: r) i0 =
+  (do rest <- uprp_decode_slots r (i0 + 1); do hd <- uprp_decode_slots [s] i0; Ok (hd ++ rest)).
+Proof.
+  cbn [uprp_decode_slots]. destruct (uprp_decode_slots r (i0 + 1)) as [rest|e]; [|reflexivity]. cbn [bind].
+  destruct (cuwp_is_unused s); [reflexivity|].
+  destruct (flags_of cuwp_valid_special_flags_codec _); [|reflexivity]. cbn [bind].
+  destruct (flags_of cuwp_valid_unit_flags_codec _); [|reflexivity]. cbn [bind].
+  destruct (flags_of cuwp_unit_property_flags_codec _); reflexivity.
+Qed.
+
+Lemma single_cuwp_slot_indices s i0 p : uprp_decode_slots [s] i0 = Ok p -> forall j, In j (map fst (cby_idx p)) -> j = i0 + 1.
+Proof.
+  intros H j Hj. destruct (uprp_decode_slots_indices [s] i0 p H) as [Hgt _].
+  cbn [uprp_decode_slots bind] in H. destruct (cuwp_is_unused s).
+  - inversion H; subst p. destruct Hj.
+  - repeat (let x := fresh "x" in let Hx := fresh "Hx" in let Hk' := fresh "Hk" in
+            match type of H with bind _ _ = Ok _ => apply bind_ok_inv in H as (x & Hx & Hk'); rename Hk' into H end).
+    inversion H; subst p. unfold cby_idx in Hj. cbn in Hj. destruct Hj as [<-|[]]. reflexivity.
+Qed.
+
+Theorem emitted_cuwp_table_reads_back_slotwise : forall slots i0,
+  (forall k s, nth_error slots k = Some s -> exists p, uprp_decode_slots [s] (i0 + N.of_nat k) = Ok p) ->
+  exists cs', uprp_decode_slots slots i0 = Ok cs' /\
+    forall k s p, nth_error slots k = Some s -> uprp_decode_slots [s] (i0 + N.of_nat k) = Ok p ->
+      assocN_last (i0 + N.of_nat k + 1) (cby_idx cs') = assocN_last (i0 + N.of_nat k + 1) (cby_idx p).
+Proof.
+  induction slots as [|s r IH]; intros i0 Hall.
+  - exists []. split; [reflexivity|]. intros k s p Hk. destruct k; discriminate.
+  - destruct (Hall 0%nat s eq_refl) as [p0 Hp0]. rewrite N.add_0_r in Hp0.
+    destruct (IH (i0 + 1)) as (rest & Hrest & Hslots).
+    { intros k s' Hk. destruct (Hall (S k) s' Hk) as [p Hp]. exists p.
+      replace (i0 + 1 + N.of_nat k) with (i0 + N.of_nat (S k)) by lia. exact Hp. }
+    exists (p0 ++ rest). split; [rewrite uprp_decode_cons, Hrest; cbn [bind]; rewrite Hp0; reflexivity|].
+    destruct (uprp_decode_slots_indices _ _ _ Hrest) as [Hgt _].
+    intros k s' p Hk Hp. rewrite cby_idx_app, assocN_last_app.
+    destruct k as [|k]; cbn [nth_error] in Hk.
+    + inversion Hk; subst s'. rewrite N.add_0_r in Hp. rewrite Hp0 in Hp. inversion Hp; subst p. rewrite N.add_0_r.
+      rewrite (assocN_last_none (i0 + 1) (cby_idx rest)); [reflexivity|].
+      intros Hc. specialize (Hgt _ Hc). lia.
+    + replace (i0 + N.of_nat (S k) + 1) with (i0 + 1 + N.of_nat k + 1) by lia.
+      replace (i0 + N.of_nat (S k)) with (i0 + 1 + N.of_nat k) in Hp by lia.
+      rewrite (Hslots k s' p Hk Hp).
+      destruct (assocN_last (i0 + 1 + N.of_nat k + 1) (cby_idx p)) as [x|] eqn:E; [reflexivity|].
+      apply assocN_last_none. intros Hc. pose proof (single_cuwp_slot_indices s i0 p0 Hp0 _ Hc). lia.
+Qed.
+
+Lemma cby_idx_member cs i c : In (i, c) (cby_idx cs) -> In c cs.
+Proof.
+  unfold cby_idx. intros H. apply in_flat_map in H as (c0 & Hc0 & Hin). destruct (c_idx c0); [|destruct Hin].
+  destruct Hin as [Heq|[]]. inversion Heq; subst. exact Hc0.
+Qed.
+
+Theorem saved_cuwp_table_reads_back cs v :
+  uprp_encode cs = Ok v ->
+  (forall c, In c cs -> length (c_vs c) = 6%nat /\ length (c_vu c) = 7%nat /\ length (c_flags c) = 5%nat) ->
+  exists cs', uprp_decode v = Ok cs' /\
+    forall k c slot, assocN_last (N.of_nat k + 1) (cby_idx cs) = Some c ->
+      nth_error (vlist "_cuwp_slots" v) k = Some slot -> cuwp_is_unused slot = false ->
+      assocN_last (N.of_nat k + 1) (cby_idx cs') =
+        Some {| c_hp := c_hp c; c_sh := c_sh c; c_en := c_en c; c_res := c_res c; c_hang := c_hang c; c_flags := c_flags c;
+                c_vs := c_vs c; c_vu := c_vu c; c_unk := c_unk c; c_pad := c_pad c; c_idx := Some (N.of_nat k + 1) |}.
+Proof.
+  intros H Hlens. unfold uprp_encode in H. destruct (existsb _ cs); [discriminate|]. cbv zeta in H. fold (cby_idx cs) in H.
+  inv_bind H as slots Hs Hk.
+  match type of Hk with Ok ?q = Ok _ => assert (v = q) as -> by congruence end. clear Hk.
+  unfold uprp_decode. change (vlist "_cuwp_slots" (mk_struct [("_cuwp_slots", VList slots)])) with slots.
+  pose proof (mapM_length _ _ _ Hs) as Hlen. rewrite map_length, seq_length in Hlen.
+  assert (forall k s, nth_error slots k = Some s ->
+            match assocN_last (N.of_nat k + 1) (cby_idx cs) with
+            | Some c => cuwp_encode c = Ok s
+            | None => s = empty_cuwp_val
+            end) as Hslot.
+  { intros k s Hk. assert (k < N.to_nat MAX_CUWP_SLOTS)%nat as Hlt by (rewrite <- Hlen; apply nth_error_Some; congruence).
+    assert (nth_error (map N.of_nat (seq 0 (N.to_nat MAX_CUWP_SLOTS))) k = Some (N.of_nat k)) as Hseq
+      by (rewrite nth_error_map, nth_error_seq_lt by exact Hlt; reflexivity).
+    destruct (mapM_nth _ _ _ _ _ Hs Hseq) as (b & Hb & Hnb). rewrite Hk in Hnb. inversion Hnb; subst b. cbv beta in Hb.
+    destruct (assocN_last (N.of_nat k + 1) (cby_idx cs)); [exact Hb | inversion Hb; reflexivity]. }
+  destruct (emitted_cuwp_table_reads_back_slotwise slots 0) as (cs' & Hdec & Hpieces).
+  { intros k s Hk. specialize (Hslot k s Hk). rewrite N.add_0_l.
+    destruct (assocN_last (N.of_nat k + 1) (cby_idx cs)) as [c|] eqn:El.
+    - destruct (cuwp_is_unused s) eqn:Eu.
+      + exists []. cbn [uprp_decode_slots bind]. rewrite Eu. reflexivity.
+      + destruct (Hlens c (cby_idx_member _ _ _ (assocN_last_in _ _ _ El))) as (L1 & L2 & L3).
+        eexists. apply (an_emitted_cuwp_slot_reads_back c s (N.of_nat k) Hslot L1 L2 L3 Eu).
+    - subst s. exists []. reflexivity. }
+  exists cs'. split; [exact Hdec|].
+  intros k c slot El Hk Hu. pose proof (Hslot k slot Hk) as Hs'. rewrite El in Hs'.
+  destruct (Hlens c (cby_idx_member _ _ _ (assocN_last_in _ _ _ El))) as (L1 & L2 & L3).
+  pose proof (an_emitted_cuwp_slot_reads_back c slot (N.of_nat k) Hs' L1 L2 L3 Hu) as Hone.
+  match type of Hone with _ = Ok ?pp => pose proof (Hpieces k slot pp Hk) as Hp end. rewrite !N.add_0_l in Hp. rewrite (Hp Hone).
+  unfold cby_idx. cbn [flat_map c_idx app assocN_last]. rewrite N.eqb_refl. reflexivity.
+Qed.
